@@ -46,6 +46,27 @@ macro_rules! widening_cross {
 }
 widening_cross!([0, 1, 7, 63, 64, 65, 128, 192, 256, 320], [0, 1, 7, 63, 64, 65, 128, 192, 256, 320]);
 
+/// A result type whose size is not exactly BITS + BITS_RHS must be refused (the documented runtime panic),
+/// whatever the operands: it can never be filled with a product.
+fn widening_bad_go<const B: usize, const L: usize, const S: usize, const LS: usize>(m: &mut Mon, a: &[u64], b: &[u64]) {
+    let (x, y): (Uint<B, L>, Uint<B, L>) = (uint(a), uint(b));
+    m.must_panic(|| format!("Uint<{S}> {:x?}", x.widening_mul::<B, L, S, LS>(y).as_limbs()), "Uint<S> is not the product type of Uint<B> x Uint<B>");
+}
+
+macro_rules! widening_bad_pairs {
+    ($m:ident, $lb:expr, $a:expr, $b:expr; $(($x:literal, $s:literal)),* $(,)?) => {
+        $(if $lb == $x { widening_bad_go::<$x, { ($x + 63) / 64 }, $s, { ($s + 63) / 64 }>($m, $a, $b); })*
+    };
+}
+
+fn widening_bad(m: &mut Mon, lb: usize, a: &[u64], b: &[u64]) {
+    widening_bad_pairs!(m, lb, a, b;
+        (0, 1), (1, 1), (1, 3), (1, 64), (7, 13), (7, 15), (7, 64), (63, 125), (63, 127), (63, 64), (63, 128),
+        (64, 64), (64, 100), (64, 127), (64, 129), (64, 192), (65, 129), (65, 131), (65, 128), (65, 192),
+        (128, 128), (128, 192), (128, 255), (128, 257), (128, 320), (192, 320), (192, 383), (192, 385), (192, 448),
+        (256, 256), (256, 448), (256, 511), (256, 513), (256, 576), (320, 576), (320, 639), (320, 641), (320, 704));
+}
+
 fn exec<const B: usize, const L: usize>(m: &mut Mon, op: &str, a: &[Arg]) {
     match op {
         "mul" => {
@@ -136,6 +157,10 @@ fn exec<const B: usize, const L: usize>(m: &mut Mon, op: &str, a: &[Arg]) {
             let rb = a[2].us();
             m.nontrivial(!gen::is_zero(a[0].u()) && !gen::is_zero(a[1].u()));
             widening(m, B, rb, a[0].u(), a[1].u());
+        }
+        "widening_bad" => {
+            m.nontrivial(!gen::is_zero(a[0].u()) && !gen::is_zero(a[1].u()));
+            widening_bad(m, B, a[0].u(), a[1].u());
         }
         "product" => {
             let xs: Vec<Uint<B, L>> = a.iter().map(|x| uint(x.u())).collect();
@@ -245,6 +270,17 @@ fn workload(m: &mut Mon, bits: usize) {
                 }
             }
             m.case("widening", bits, vec![au(&gen::max(bits)), au(&gen::max(rb)), an(rb)]);
+            if rb == bits {
+                // result types of the wrong size (one bit short or long, a limb short or long, same limb count but fewer bits)
+                for v in [gen::max(bits), gen::small(1, bits), gen::zero(bits)] {
+                    m.case("widening_bad", bits, vec![au(&v), au(&v)]);
+                }
+                for _ in 0..m.iters(40) {
+                    let a = gen::hostile(&mut r, bits);
+                    let b = gen::hostile(&mut r, bits);
+                    m.case("widening_bad", bits, vec![au(&a), au(&b)]);
+                }
+            }
             for _ in 0..m.iters(400) {
                 let a = gen::hostile(&mut r, bits);
                 let b = gen::hostile(&mut r, rb);
